@@ -4,4 +4,5 @@ package main
 func genAll() {
 	genHashes()
 	genLocks()
+	genCallback()
 }
